@@ -36,6 +36,120 @@ pub fn load(path: Option<&str>) -> Result<Registry, String> {
     }
 }
 
+/// Top-level components of an expression (split at separators outside `{}`, `<>`, `[]`).
+fn top_components(expr: &str) -> Vec<String> {
+    let mut comps = Vec::new();
+    let mut cur = String::new();
+    let (mut depth, mut esc) = (0i32, false);
+    for ch in expr.chars() {
+        if esc {
+            cur.push(ch);
+            esc = false;
+            continue;
+        }
+        match ch {
+            '\\' => {
+                cur.push(ch);
+                esc = true;
+            },
+            '{' | '<' | '[' => {
+                depth += 1;
+                cur.push(ch);
+            },
+            '}' | '>' | ']' => {
+                depth -= 1;
+                cur.push(ch);
+            },
+            '/' if depth == 0 => comps.push(std::mem::take(&mut cur)),
+            _ => cur.push(ch),
+        }
+    }
+    comps.push(cur);
+    comps
+}
+
+/// `text` is one group: its first character opens a `{}` or `<>` whose closer is its last character.
+fn single_group(text: &str) -> bool {
+    let chars: Vec<char> = text.chars().collect();
+    if chars.len() < 2 || !(chars[0] == '{' || chars[0] == '<') {
+        return false;
+    }
+    let (mut depth, mut esc) = (0i32, false);
+    for (i, ch) in chars.iter().enumerate() {
+        if esc {
+            esc = false;
+            continue;
+        }
+        match ch {
+            '\\' => esc = true,
+            '{' | '<' | '[' => depth += 1,
+            '}' | '>' | ']' => {
+                depth -= 1;
+                if depth == 0 {
+                    return i + 1 == chars.len();
+                }
+            },
+            _ => {},
+        }
+    }
+    false
+}
+
+/// The expression shapes known finding F6 covers:
+/// (a) "a branch after a tree wildcard": a tree wildcard component with an alternation or
+///     repetition in some later component (`**/{a}`, `**/{a,bc}`, `**/<a:1,2>`, `x/**/{a/**,b}`,
+///     `**/{a}/*`, `**/*{/**/b,/a}`) — the branch lets the right-to-left scan of the
+///     exhaustiveness fold pass over bounded text and reach the tree wildcard;
+/// (b) the whole expression is one repetition whose body ends on a separator (`<*/>`, `<*/:1,>`,
+///     `<<?>/>`), which only ever matches the empty path among paths without a trailing separator.
+fn f6_shape(text: &str) -> bool {
+    let comps = top_components(text);
+    let last = comps.last().map(|s| s.as_str()).unwrap_or("");
+    let has_group = |c: &str| {
+        let mut esc = false;
+        for ch in c.chars() {
+            if esc {
+                esc = false;
+                continue;
+            }
+            match ch {
+                '\\' => esc = true,
+                '{' | '<' => return true,
+                _ => {},
+            }
+        }
+        false
+    };
+    let _ = last;
+    let a = comps
+        .iter()
+        .position(|c| c == "**")
+        .map_or(false, |i| comps[i + 1..].iter().any(|c| has_group(c)));
+    let b = comps.len() == 1 && text.starts_with('<') && single_group(text) && {
+        let inner = &text[1..text.len() - 1];
+        let body = match inner.rfind(':') {
+            Some(i) if inner[i + 1..].chars().all(|c| c.is_ascii_digit() || c == ',') => &inner[..i],
+            _ => inner,
+        };
+        body.ends_with('/')
+    };
+    // (c) an optional repetition as the first component followed only by tree wildcards
+    //     (`<a:0,>/**`, `<ab:0,3>/**`): with zero repetitions it matches the empty path, i.e. the
+    //     walk root, "exhaustively", although it matches nothing else beneath the root
+    let c = comps.len() >= 2
+        && comps[0].starts_with('<')
+        && single_group(&comps[0])
+        && {
+            let inner = &comps[0][1..comps[0].len() - 1];
+            match inner.rfind(':') {
+                Some(i) if inner[i + 1..].chars().all(|c| c.is_ascii_digit() || c == ',') => inner[i + 1..].starts_with("0,") || &inner[i + 1..] == "0",
+                _ => true,
+            }
+        }
+        && comps[1..].iter().all(|c| c == "**");
+    a || b || c
+}
+
 fn first_component(expr: &str) -> &str {
     expr.split('/').next().unwrap_or("")
 }
@@ -76,8 +190,11 @@ pub fn explains(f: &Finding, sc: &Scenario, v: &Violation, root_text: &str) -> b
             }
             let space = crate::oracle::Space::of(w, root_text);
             let texts = crate::exec::subst_pattern(pf, root_text).texts();
+            // ... and only for the expression shapes this finding is about (so that another defect
+            // that makes some *other* shape claim Always is still reported)
             let exhaustive: Vec<wax::Glob> = texts
                 .iter()
+                .filter(|t| f6_shape(t))
                 .filter_map(|t| wax::Glob::new(t).ok())
                 .filter(|g| matches!(g.is_exhaustive(), wax::query::When::Always))
                 .collect();
